@@ -19,7 +19,7 @@ for p in sorted(glob.glob(os.path.join(HERE, "mutants", "*.patch"))):
             continue
         if os.path.exists(os.path.join(HERE, "mc", "checks", c.lower() + ".py")):
             jobs.append((b, c))
-res_path = os.path.join(HERE, "mutants", "RESULTS.json")
+res_path = os.environ.get("MUT_RESULTS") or os.path.join(HERE, "mutants", "RESULTS.json")
 results = json.load(open(res_path)) if os.path.exists(res_path) else {}
 import concurrent.futures, threading
 lock = threading.Lock()
